@@ -1060,7 +1060,14 @@ impl History {
         // out-of-order instead of unsolicited when the client owes acknowledgements
         if k == 0 && self.actors[a].acks.len() >= 2 {
             let second = self.actors[a].acks[1].clone();
-            if matches!(second, Packet::PubAck(..) | Packet::PubRec(..)) {
+            let second_pkid = match &second {
+                Packet::PubAck(a, _) => a.pkid,
+                Packet::PubRec(a, _) => a.pkid,
+                _ => 0,
+            };
+            // (only if it really is out of order: the oldest unacknowledged forward is another one)
+            let really = self.model.conns[link].out_fifo.front().map(|e| e.pkid != second_pkid).unwrap_or(true);
+            if really && matches!(second, Packet::PubAck(..) | Packet::PubRec(..)) {
                 self.s4.push(link, second);
                 self.s4.notify(link);
                 self.actors[a].poisoned = true;
